@@ -143,6 +143,12 @@ func (px *PX) readOctets(c *ssa.Call, fr *pxFrame, st *pxState) int {
 	switch qualifiedFnName(sc) {
 	case "io.ReadFull", "io.ReadAtLeast":
 		if bs := px.byteSeqOf(c.Call.Args[1], fr, st); bs != nil {
+			if len(c.Call.Args) == 3 {
+				// io.ReadAtLeast fills the buffer only when min is its length
+				if m, _ := px.eval(c.Call.Args[2], fr, st); m == nil || !m.Equal(single(int64(len(bs.Oct)))) {
+					return -3
+				}
+			}
 			return len(bs.Oct)
 		}
 		// length of a slice of unknown content: evaluate len
@@ -288,6 +294,18 @@ func (w *World) pxPredicate(fn *ssa.Function, hi int) (ISet, bool) {
 							bad = true
 						}
 						res, seen = r, true
+						return
+					}
+					// a comparison returned as a value (no branch on it): with the parameter
+					// fixed, exactly one outcome is feasible (wrap-around range tests  tag-lo <= hi-lo)
+					px2.cur = st
+					_, tok := px2.f.refine(st.env, results[0], true)
+					_, fok := px2.f.refine(st.env, results[0], false)
+					if tok != fok {
+						if seen && tok != res {
+							bad = true
+						}
+						res, seen = tok, true
 						return
 					}
 					bad = true
@@ -486,4 +504,41 @@ func (w *World) pxDispatchTag(fn *ssa.Function, t int, boundaries map[*ssa.Funct
 	}
 	sort.Slice(arms, func(i, j int) bool { return arms[i].Label < arms[j].Label })
 	return arms
+}
+
+// pxRetRangeOK: the values of integer result idx of fn over its nil-error
+// return paths, by path exploration (nil: not decided within a small budget).
+func (w *World) pxRetRangeOK(fn *ssa.Function, idx int) ISet {
+	ei := errIndex(fn.Signature)
+	if fn.Blocks == nil || ei < 0 || idx >= fn.Signature.Results().Len() {
+		return nil
+	}
+	var acc ISet
+	bad := false
+	var px *PX
+	px = w.newPX(pxHooks{
+		onReturn: func(fr *pxFrame, ret *ssa.Return, results []*Term, st *pxState) {
+			if !isNilConst(ret.Results[ei]) {
+				if w.nonNilErr(ret.Results[ei], nil, nil, 0) {
+					return
+				}
+				if s, has := st.env["("+results[ei].key+" != nil:error)"]; has && s.Equal(single(1)) {
+					return
+				}
+			}
+			// (a wrap-around inside the term is modelled by the evaluator: the set is still an over-approximation)
+			s, _ := px.evalTerm(results[idx], st)
+			if s == nil {
+				bad = true
+				return
+			}
+			acc = acc.Union(s)
+		},
+	})
+	px.maxPaths, px.maxSteps = 400, 40000
+	px.Run(fn, nil)
+	if bad || px.Truncated || acc.Empty() {
+		return nil
+	}
+	return acc
 }
